@@ -128,6 +128,8 @@ def main():
                 text += " Cases of a shard are judged on 4 goroutines (shared state inside the library shows up as wrong verdicts)."
             if pid != "C13":
                 text += " Every second shard process runs with GOMAXPROCS set to 1, 2, 3, 5, 7, 48, 64 or 128."
+            if pid in {"C01","C03","C09","C10","C14","C15","C16","C18","C20"}:
+                text += " The classes in which several goroutines are inside the library at once are run a second time under the Go race detector (-race build); a report with a library frame is a violation."
             if pid in BUILD386:
                 text += " Additionally run as a 32-bit build (GOARCH=386) at reduced volume."
             checks.append({
